@@ -396,6 +396,19 @@ func (d *Data) blockChangesExtents(extents *dvid.Extents, bx, by, bz int32) bool
 	return extents.AdjustPoints(start, end)
 }
 
+// checkBlockSize refuses a received block whose dimensions are not the instance's block size:
+// everything that later reads, indexes or down-samples the stored block assumes that size.
+func (d *Data) checkBlockSize(block *labels.Block, bx, by, bz int32) error {
+	blockSize, ok := d.BlockSize().(dvid.Point3d)
+	if !ok {
+		return fmt.Errorf("block size for data %q should be 3d, not: %s", d.DataName(), d.BlockSize())
+	}
+	if !block.Size.Equals(blockSize) {
+		return fmt.Errorf("block (%d, %d, %d) has size %s but data %q has blocks of size %s", bx, by, bz, block.Size, d.DataName(), blockSize)
+	}
+	return nil
+}
+
 // storeBlocks reads blocks from io.ReadCloser and puts them in store, handling metadata bookkeeping
 // unlike ingestBlocks function.
 func (d *Data) storeBlocks(ctx *datastore.VersionedCtx, r io.ReadCloser, scale uint8, downscale bool, compression string, indexing bool) error {
@@ -499,6 +512,9 @@ func (d *Data) storeBlocks(ctx *datastore.VersionedCtx, r io.ReadCloser, scale u
 		if err != nil {
 			return err
 		}
+		if err := d.checkBlockSize(block, bx, by, bz); err != nil {
+			return err
+		}
 		bcoord := dvid.ChunkPoint3d{bx, by, bz}.ToIZYXString()
 		tk := NewBlockTKeyByCoord(scale, bcoord)
 		if scale == 0 {
@@ -572,11 +588,14 @@ func (d *Data) ingestBlocks(ctx *datastore.VersionedCtx, r io.ReadCloser, scale 
 
 	var numBlocks int
 	for {
-		_, compressed, bx, by, bz, err := readStreamedBlock(r, scale)
+		block, compressed, bx, by, bz, err := readStreamedBlock(r, scale)
 		if err == io.EOF {
 			break
 		}
 		if err != nil {
+			return err
+		}
+		if err := d.checkBlockSize(block, bx, by, bz); err != nil {
 			return err
 		}
 		bcoord := dvid.ChunkPoint3d{bx, by, bz}.ToIZYXString()
